@@ -5,7 +5,7 @@ import ast
 
 from ..model import CFG, FCFG
 from .common import site_of
-from .flow import (Oblig, calls, events, deps_of, arg_deps, SELF, P, has_fact, escaping_raises, short_exc)
+from .flow import (own, Oblig, calls, events, deps_of, arg_deps, SELF, P, has_fact, escaping_raises, short_exc)
 
 EXPLANATION = (
     "Decides: the Earley scanner / completer never mutate a parse tree that is reachable from an existing chart state "
@@ -35,7 +35,7 @@ def run(eng, rep, tier):
             for l in ev.target:
                 if l[0].startswith("p:") and "parse_tree" in l[1]:
                     bad.append((ev, l))
-        news = [ev for ev in s.events if ev.kind == "new" and ev.callee.endswith("fcfg.state.State")]
+        news = [ev for ev in own(s) if ev.kind == "new" and ev.callee.endswith("fcfg.state.State")]
         shares = [ev for ev in news if len(ev.args) > 3 and any(l[0].startswith("p:") for l in ev.args[3].alias)]
         if bad:
             ev, l = bad[0]
@@ -56,7 +56,7 @@ def run(eng, rep, tier):
         rep.error("DOM", "C15.2", RD, "anchor", "_get_parse_tree_sub vanished")
     else:
         s = interp.run_entry(f, RD)
-        ws = [ev for ev in s.events if ev.kind == "write" and ev.attr == "sons"]
+        ws = [ev for ev in own(s) if ev.kind == "write" and ev.attr == "sons"]
         ok = bool(ws) and all(has_fact(ev.facts, f.name + "(", True) for ev in ws)     # the recursive call, by its own name
         ob.decide("DOM", "C15.2", f, "commit-on-success", ok,
                   "children are assigned only where the recursive expansion returned true",
@@ -64,9 +64,9 @@ def run(eng, rep, tier):
                   "alternative leaves its children in the returned tree", s,
                   site=(ws[0].site.to_json() if ws else site_of(prog, f, f.node)))
         ok2 = any(ev.kind == "ret" and ev.value is not None and ev.value.has_const() and ev.value.const is True
-                  and any(fct[0].endswith(" is None") and fct[1] for fct in ev.facts) for ev in s.events)
+                  and any(fct[0].endswith(" is None") and fct[1] for fct in ev.facts) for ev in own(s))
         ob.decide("DOM", "C15.2", f, "success-iff-fully-expanded-and-matching", ok2 and
-                  any(c.callee.endswith("_match") for c, _ in [(e, 0) for e in s.events if e.kind == "call"]),
+                  any(c.callee.endswith("_match") for c, _ in [(e, 0) for e in own(s) if e.kind == "call"]),
                   "success is reported when nothing is left to expand and the expansion matched the word",
                   "the parser reports success without checking the match / with variables left", s,
                   site=site_of(prog, f, f.node))
@@ -74,7 +74,7 @@ def run(eng, rep, tier):
     for cname, cq in (("RecursiveDecentParser", RD), ("LLOneParser", "pyformlang.cfg.llone_parser.LLOneParser")):
         f0 = prog.method(cname, "__init__")
         s0 = interp.run_entry(f0, cq)
-        ws = [ev for ev in s0.events if ev.kind == "write" and ev.wkind == "attr" and ev.value is not None]
+        ws = [ev for ev in own(s0) if ev.kind == "write" and ev.wkind == "attr" and ev.value is not None]
         kept = [ev for ev in ws if P("cfg") in ev.value.alias]
         ob.decide("R1", "C15.2", f0, "parses-the-given-grammar:" + cname, bool(kept),
                   "the parser stores the grammar object it was given",
@@ -84,7 +84,7 @@ def run(eng, rep, tier):
     CYK = "pyformlang.cfg.cyk_table.CYKTable"
     f = prog.functions.get(CYK + "._propagate_in_cyk_table")
     s = interp.run_entry(f, CYK)
-    nodes = [ev for ev in s.events if ev.kind == "new" and ev.callee.endswith("CYKNode")]
+    nodes = [ev for ev in own(s) if ev.kind == "new" and ev.callee.endswith("CYKNode")]
     CELL = ("self", ("_cyk_table",))
     ok = bool(nodes) and all(len(ev.args) == 3 and CELL in deps_of(ev.args[1]) and CELL in deps_of(ev.args[2]) and
                              ("self", ("_productions_d",)) in deps_of(ev.args[0]) for ev in nodes)
